@@ -12,6 +12,32 @@ def main(tier: str) -> int:
     res = campaign.run_slices(slices, inv=("Good",), timeout=1500 if tier == "thorough" else 400)
     states, trans, cov = slices_summary(run, res, "C03")
     cases, stats = campaign.writer_campaign(tier, seed + 303, parse_entries=(), n_beh=60 if tier == "quick" else 500)
+    # the `version` a caller passes to StreamParameters must not produce namespace rows in a version-1 stream (both integrations, three types)
+    from .. import impl, terms, tlc, wire  # noqa: PLC0415
+    vtraces, vcases = [], []
+    I_ = lambda x: ("iri", x)  # noqa: E731
+    for integ in ("generic", "rdflib"):
+        for sclass in ("triple", "quad", "graph"):
+            for version in (1, 2):
+                for nsdecl in (True, False):
+                    st = [(I_("http://e/s"), I_("http://e/p"), ("lit", "v", "", ""))] if sclass == "triple" else [(I_("http://e/s"), I_("http://e/p"), ("lit", "v", "", ""), I_("http://g/1"))]
+                    cfg = impl.default_cfg(integ=integ, entry=("stream_frames" if integ == "generic" else "graph_serialize"), sclass=sclass, ltype=(1 if sclass == "triple" else 2),
+                                           nsdecl=nsdecl, version=version, gen=False, star=False, dataset=(sclass != "triple"))
+                    c_ = campaign.Case({"universe": "version-parameter", "entry": cfg["entry"], "integ": integ, "sclass": sclass, "version_passed": version, "nsdecl": nsdecl}, [], mode="none")
+                    c_.replay = {"cfg": cfg}
+                    try:
+                        c_.data = impl.serialize(cfg, st, [("ex", "http://e/"), ("", "http://other.example/ns#")])
+                        c_.frames = wire.dec_stream(c_.data, delimited=True)
+                        vtraces.append({"id": len(vcases), "rows": terms.jrows_of_frames(c_.frames), "mode": "none", "exp": []})
+                        vcases.append(c_)
+                    except Exception as ex:  # noqa: BLE001
+                        c_.exc = f"{type(ex).__name__}: {ex}"
+                        cases.append(c_)
+    vv = tlc.judge(vtraces)
+    vv.pop("__stats__")
+    for i_, c_ in enumerate(vcases):
+        c_.verdict = vv[i_]
+        cases.append(c_)
     # every stream the repository's own tests make pyjelly write (recorded from outside, validity judged by TLC)
     more, info = campaign.repo_test_traffic(tier, max_rows=(60_000 if tier == "quick" else 600_000))
     cases.extend(more)
